@@ -588,29 +588,30 @@ func tryInsertLiteral(ad *classad.ClassAd, attr, valueStr string) error {
 		return nil
 	}
 
-	// Number literals
-	if len(valueStr) > 0 && (valueStr[0] == '-' || (valueStr[0] >= '0' && valueStr[0] <= '9')) {
-		// Try integer first
-		if !strings.Contains(valueStr, ".") {
-			if val, err := strconv.ParseInt(strings.TrimSpace(valueStr), 10, 64); err == nil {
-				_ = ad.Set(attr, val) // ClassAd.Set always returns nil, safe to ignore
-				return nil
-			}
-		} else {
-			// Try float
-			if val, err := strconv.ParseFloat(strings.TrimSpace(valueStr), 64); err == nil {
-				_ = ad.Set(attr, val) // ClassAd.Set always returns nil, safe to ignore
-				return nil
-			}
+	// Number literals. Only the canonical spellings the full parser also accepts
+	// take the shortcut (no leading zeros, digits on both sides of the point);
+	// anything else -- "010", "5.", "1_0.5", hex floats -- is left to the parser
+	// so the shortcut can never accept or reinterpret what the grammar rejects.
+	trimmed := strings.TrimSpace(valueStr)
+	switch literalNumberKind(trimmed) {
+	case 1:
+		if val, err := strconv.ParseInt(trimmed, 10, 64); err == nil {
+			_ = ad.Set(attr, val) // ClassAd.Set always returns nil, safe to ignore
+			return nil
+		}
+	case 2:
+		if val, err := strconv.ParseFloat(trimmed, 64); err == nil {
+			_ = ad.Set(attr, val) // ClassAd.Set always returns nil, safe to ignore
+			return nil
 		}
 	}
 
 	// String literals (quoted)
-	trimmed := strings.TrimSpace(valueStr)
 	if len(trimmed) >= 2 && trimmed[0] == '"' && trimmed[len(trimmed)-1] == '"' {
-		// Simple string without escape sequences
+		// Simple string without escape sequences or interior quotes (an interior
+		// quote means an expression such as "a" + "b", not a lone string)
 		unquoted := trimmed[1 : len(trimmed)-1]
-		if !strings.Contains(unquoted, "\\") {
+		if !strings.ContainsAny(unquoted, "\\\"") {
 			_ = ad.Set(attr, unquoted) // ClassAd.Set always returns nil, safe to ignore
 			return nil
 		}
@@ -618,6 +619,54 @@ func tryInsertLiteral(ad *classad.ClassAd, attr, valueStr string) error {
 
 	// Not a simple literal, caller should use full parser
 	return fmt.Errorf("not a simple literal")
+}
+
+// literalNumberKind classifies s as a canonical integer literal (1), a canonical
+// real literal (2) or neither (0): -?(0|[1-9][0-9]*) optionally followed by
+// .[0-9]+ and an exponent.
+func literalNumberKind(s string) int {
+	i := 0
+	if i < len(s) && s[i] == '-' {
+		i++
+	}
+	start := i
+	for i < len(s) && s[i] >= '0' && s[i] <= '9' {
+		i++
+	}
+	if i == start || (s[start] == '0' && i-start > 1) {
+		return 0
+	}
+	if i == len(s) {
+		return 1
+	}
+	if s[i] != '.' {
+		return 0
+	}
+	i++
+	start = i
+	for i < len(s) && s[i] >= '0' && s[i] <= '9' {
+		i++
+	}
+	if i == start {
+		return 0
+	}
+	if i < len(s) && (s[i] == 'e' || s[i] == 'E') {
+		i++
+		if i < len(s) && (s[i] == '+' || s[i] == '-') {
+			i++
+		}
+		start = i
+		for i < len(s) && s[i] >= '0' && s[i] <= '9' {
+			i++
+		}
+		if i == start {
+			return 0
+		}
+	}
+	if i != len(s) {
+		return 0
+	}
+	return 2
 }
 
 // decodeOldClassAdString decodes the content between the quotes of an OLD-ClassAd
